@@ -7,7 +7,8 @@ from vlib.core import Case
 PROP = "C09"
 SPEC_MODE = "oracle"
 KEEP_PREFIX = 1
-EXTRA_MODULES = ("Sentinel.Lemmas.LeapArrayRace", "Sentinel.Lemmas.LeapArrayRaceTerm", "Sentinel.Lemmas.LeapArrayRaceOwn")
+EXTRA_MODULES = ("Sentinel.Lemmas.LeapArrayRace", "Sentinel.Lemmas.LeapArrayRaceTerm", "Sentinel.Lemmas.LeapArrayRaceOwn",
+                 "Sentinel.Lemmas.LeapArrayRaceStarted")
 SIZES = {"quick": 2500, "thorough": 60000}
 BATCH = 2500
 RULE = ("one case = one schedule: a BucketLeapArray (n in 1..4 buckets, bucket length 1..500 ms) pre-filled sequentially, then a round of "
@@ -30,11 +31,11 @@ CONFIGS = [
     ("B-viewsum-vs-plain-add", PRE + ["thread 0 1999 add pass 1", "thread 1 1999 viewsum pass"], 40, 200, 200),
     ("C-resetting-add-vs-viewsum", PRE + ["thread 0 2000 add pass 1", "thread 1 2000 viewsum pass"], 40, 1500, 20000),
     ("D-n1-resetting-add-vs-viewsum", PRE1 + ["thread 0 2000 add pass 1", "thread 1 2000 viewsum pass"], 40, 500, 500),
-    ("E-n1-resetting-add-vs-count", PRE1 + ["thread 0 2000 add pass 1", "thread 1 2000 count pass"], 18, 300, 30000),
-    ("F-two-ops-vs-add", PRE + ["thread 0 1999 add pass 1 ; viewsum pass", "thread 1 2000 add block 2"], 40, 300, 20000),
+    ("E-n1-resetting-add-vs-count", PRE1 + ["thread 0 2000 add pass 1", "thread 1 2000 count pass"], 18, 300, 60000),
+    ("F-two-ops-vs-add", PRE + ["thread 0 1999 add pass 1 ; viewsum pass", "thread 1 2000 add block 2"], 40, 300, 150000),
     ("G-rt-vs-rt", ["la.new 2 1000 1000", "thread 0 1000 add rt 40", "thread 1 1000 add rt 30"], 40, 100, 100),
     ("H-conc-vs-conc", ["la.new 2 1000 1000", "thread 0 1000 conc 4", "thread 1 1001 conc 7"], 40, 100, 100),
-    ("I-resetting-conc-vs-count", PRE3 + ["thread 0 2500 conc 3", "thread 1 2500 count rt"], 16, 300, 30000),
+    ("I-resetting-conc-vs-count", PRE3 + ["thread 0 2500 conc 3", "thread 1 2500 count rt"], 16, 300, 60000),
     ("J-add-vs-add-same-slot-contention", PRE + ["thread 0 2000 add pass 1", "thread 1 2001 add pass 2"], 14, 300, 30000),
     ("K-plain-add-vs-count", PRE + ["thread 0 1999 add pass 1", "thread 1 1999 count pass"], 40, 300, 300),
     ("L-late-recorder-vs-resetting-add", PRE + ["thread 0 1000 add pass 1", "thread 1 2000 add pass 2"], 40, 200, 200),
